@@ -8,8 +8,14 @@ from harness.common import bud
 from harness.sessions import SB
 
 PROP = "C20"
-MODULES = ["CassisModel.Properties.C20", "CassisModel.Properties.C20Ids", "CassisModel.Properties.C20Sens"]
+MODULES = ["CassisModel.Properties.C20", "CassisModel.Properties.C20Ids", "CassisModel.Properties.C20Sens", "CassisModel.Properties.C20Iso"]
 THEOREMS = [
+    "Cassis.Comparable.renderFrom_iso",
+    "Cassis.Comparable.distinct_iso",
+    "Cassis.Comparable.render_xmi_roundtrip_flat",
+    "Cassis.Comparable.render_json_roundtrip_flat",
+    "Cassis.Comparable.xmi_roundtrip_flat_iso",
+    "Cassis.Comparable.json_roundtrip_flat_iso",
     "Cassis.Comparable.renderFrom_prim_sensitive",
     "Cassis.Comparable.renderFrom_offset_sensitive",
     "Cassis.Comparable.renderFrom_ref_sensitive",
